@@ -78,6 +78,14 @@ func runMechanical(prop, repo, verifd string) []selfVariant {
 			n = mechRewrite(t, tmp)
 		}
 		v.Note += fmt.Sprintf(" (%d statements rewritten)", n)
+		if n == 0 {
+			// nothing was rewritten: staying silent would prove nothing
+			v.Status = "skipped"
+			v.Note += "; the rewrite changed nothing on this tree"
+			out = append(out, v)
+			os.RemoveAll(tmp)
+			continue
+		}
 		cmd := exec.Command(os.Args[0], "-prop", prop, "-tier", "quick", "-repo", tmp, "-verif", verifd)
 		cmd.Env = append(os.Environ(), "YV_SELFTEST=1")
 		o, _ := cmd.CombinedOutput()
